@@ -24,6 +24,30 @@ Theorem C07_digest_flatten :
 Proof. intros keep subs pn ts forest s' Hn. exact (digest_flatten keep subs pn Hn ts forest s'). Qed.
 Print Assumptions C07_digest_flatten.
 
+(* M1 at the level of nodes ("every node is reachable from exactly one place"): for ANY choice [vis] of visible nodes that
+   does not show the paragraph nodes Macro.paragraphs creates, the depth-first reading of the built tree — each visible node,
+   then its argument words, then its content — is the reading of the item sequence, provided the dropped items show nothing:
+   every visible item of the stream sits in the tree exactly once, and in stream order (preorder). *)
+Theorem C07_digest_reading :
+  forall (vis : head -> bool) (keep : Z -> bool) (subs : list (list Z * list Z)) (pn : Z) (ts forest : list tree) (s' : st),
+    (forall pn b, vis (par_head pn b) = false) ->
+    neutral keep subs ->
+    parse_doc subs pn ts = Done (forest, s') ->
+    Forall (fun e => reading vis keep (snd e) = []) (s_log s') ->
+    reading_forest vis keep forest = reading_forest vis keep ts.
+Proof. intros vis keep subs pn ts forest s' Hv Hn. exact (digest_reading vis keep Hv subs pn Hn ts forest s'). Qed.
+Print Assumptions C07_digest_reading.
+
+(* the instance the harness evaluates on every stream: all nodes except structural markers, paragraphs, table rows and cells *)
+Theorem C07_nodes_once :
+  forall (keep : Z -> bool) (subs : list (list Z * list Z)) (pn : Z) (ts forest : list tree) (s' : st),
+    neutral keep subs ->
+    parse_doc subs pn ts = Done (forest, s') ->
+    Forall (fun e => reading vis_std keep (snd e) = []) (s_log s') ->
+    reading_forest vis_std keep forest = reading_forest vis_std keep ts.
+Proof. intros keep subs pn ts forest s' Hn. exact (digest_reading vis_std keep vis_std_par subs pn Hn ts forest s'). Qed.
+Print Assumptions C07_nodes_once.
+
 (* M1b: ... and what they drop are structural markers only: the matching \end / closing $ of the environment being digested,
    the } of the group being digested, & and \\ (kept as endToken), the two delimiters of \verb, whitespace and \setcounter in
    front of a list's first \item / an item's content, empty or blank paragraphs, table rows made of rules and blanks. *)
@@ -113,6 +137,28 @@ Theorem C07_digest_terminates :
 Proof. exact digest_terminates. Qed.
 Print Assumptions C07_digest_terminates.
 
+(* Well-nested input is parsed into exactly its syntax tree ("the parent chain leads through the actual containers"): for every
+   list of syntax trees built from text tokens, plain commands and environments begin ... end (any nesting depth, any number
+   of children) whose pieces fit ([ok]: a child is not a paragraph break, not of a lower level than its environment, not an end
+   marker of the environment's own class, not from an outer grouping depth), parsing the item sequence [print] gives the trees
+   [den]: each environment node holds exactly what stands between its begin and its end, in order.  Nothing is pushed back, the
+   stream is used up, the only items dropped are the end markers, and no sectioning event is recorded. *)
+Theorem C07_nf_parse :
+  forall (subs : list (list Z * list Z)) (pn : Z) (l : list ast),
+    oks ok (fun _ => True) l ->
+    exists s', parse_doc subs pn (flat_map print l) = Done (map den l, s') /\
+               s_buf s' = [] /\ s_rest s' = [] /\ s_ev s' = [] /\ Forall (fun e => fst e = R_END) (s_log s').
+Proof. exact nf_parse. Qed.
+Print Assumptions C07_nf_parse.
+
+Example C07_nf_nonvacuous :
+  oks ok (fun _ => True) ex_nf /\ length (flat_map print ex_nf) = 9%nat /\
+  match parse_doc ex_subs 0 (flat_map print ex_nf) with
+  | Done (forest, s') => forest = map den ex_nf /\ length (s_log s') = 2%nat
+  | _ => False
+  end.
+Proof. split; [exact ex_nf_ok|split; [reflexivity|vm_compute; split; reflexivity]]. Qed.
+
 (* the boolean forms of the hypotheses on the table, as the harness evaluates them *)
 Theorem C07_table_hypotheses :
   forall (keep : Z -> bool) (subs : list (list Z * list Z)),
@@ -133,6 +179,8 @@ Example C07_nonvacuous :
       forallb wf_sections_b forest = true /\
       length forest = 2%nat /\
       length (words keep_alnum (flatten_forest forest)) = 10%nat /\
+      reading_forest vis_std keep_alnum (map snd (s_log s')) = [] /\
+      node_names (reading_forest vis_std keep_alnum forest) = [2; 3; 4; 10; 5; 6; 3] /\
       text_content (Node (ex_head KLeaf 0 0 0 0 0 []) forest) = [97; 98; 32; 99; 8211; 100; 101; 102; 103; 32]
   | _ => False
   end.
